@@ -281,13 +281,13 @@ def ext_cases(prop):
             for k in range(1, 70 * max(4, _ntok(items)), 5):
                 cases.append((si, k))
     else:
-        # one pre-emption at every 3rd line event of A's parse, B (a partner
+        # one pre-emption at every 5th line event of A's parse, B (a partner
         # with clashing names) runs to completion in between
         progs = _pair_programs()
         n = len(progs)
         for ai in range(n):
             bi = (ai + 1 + H("linepartner", ai) % (n - 1)) % n
-            for k in range(1, 70 * max(4, _ntok(progs[ai])), 3):
+            for k in range(1, 70 * max(4, _ntok(progs[ai])), 5):
                 cases.append((ai, bi, k))
     _CACHE[key] = cases
     return cases
